@@ -74,15 +74,20 @@ func (l *Linter) customLint(stmt ast.Statement) {
 
 	c := gocontext.Background()
 
+	// One slot per plugin: a goroutine only fills its own slot, the diagnostics are reported
+	// below in annotation order, whichever plugin answers first
+	results := make([][]*LintError, len(customs))
+
 	var wg sync.WaitGroup
 	for i := range customs {
 		wg.Add(1)
-		go func(call CustomLinterCall) {
+		go func(idx int, call CustomLinterCall) {
 			defer wg.Done()
+			report := func(e *LintError) { results[idx] = append(results[idx], e) }
 
 			custom, err := exec.LookPath(call.name)
 			if err != nil {
-				l.Error(CustomLinterCommandNotFound(call.name, stmt.GetMeta()))
+				report(CustomLinterCommandNotFound(call.name, stmt.GetMeta()))
 				return
 			}
 			cc, timeout := gocontext.WithTimeout(c, 5*time.Second)
@@ -94,22 +99,27 @@ func (l *Linter) customLint(stmt ast.Statement) {
 			cmd.Stderr = stderr
 			result, err := cmd.Output()
 			if err != nil {
-				l.Error(CustomLinterCommandFailed(stderr.String(), stmt.GetMeta()))
+				report(CustomLinterCommandFailed(stderr.String(), stmt.GetMeta()))
 				return
 			}
 			var resp plugin.LinterResponse
 			if err := json.Unmarshal(result, &resp); err != nil {
-				l.Error(CustomLinterCommandFailed(
+				report(CustomLinterCommandFailed(
 					fmt.Sprintf("Custom Linter %s did not respond correct message", custom),
 					stmt.GetMeta(),
 				))
 				return
 			}
 			for i := range resp.Errors {
-				l.Error(FromPluginError(resp.Errors[i], stmt.GetMeta()))
+				report(FromPluginError(resp.Errors[i], stmt.GetMeta()))
 			}
-		}(customs[i])
+		}(i, customs[i])
 	}
 
 	wg.Wait()
+	for i := range results {
+		for _, e := range results[i] {
+			l.Error(e)
+		}
+	}
 }
